@@ -91,11 +91,11 @@ func propMWU(a *Analysis, r *Registry, which string) {
 			if at := fc0.Val(c.Call.Args[0]).SingleAtom(); at != nil && strings.HasPrefix(at.Name, "phi:") {
 				T = S.atomRF(at.ID)
 				vals := fc0.AppendedValues(c)
-				if which == "C01" {
+				if true {
 					if len(vals) != 1 {
-						r.Fail("B-C01 rank-pass", name+"/tie-entry", a.W.InstrPos(c), "expected one value appended to the tie vector per rank")
+						r.Fail("B-"+which+" rank-pass", name+"/tie-entry", a.W.InstrPos(c), "expected one value appended to the tie vector per rank")
 					} else {
-						b.Eq("B-C01 rank-pass", name+"/tie-entry", a.W.InstrPos(c), vals[0], env, "iI-(iO+1)+1")
+						b.Eq("B-"+which+" rank-pass", name+"/tie-entry", a.W.InstrPos(c), vals[0], env, "iI-(iO+1)+1")
 					}
 				}
 			}
@@ -134,13 +134,13 @@ func propMWU(a *Analysis, r *Registry, which string) {
 	}
 	alts := []struct{ name, val string }{{"LocationLess", "-1"}, {"LocationGreater", "1"}, {"LocationDiffers", "0"}}
 
+	b.guard("B-"+which+" rank-pass", name+"/hasTies", func() {
+		hi, hn := fc0.Recurrence(hasTies)
+		b.EqRF("B-"+which+" rank-pass", name+"/hasTies-init", b.pos(fn), hi, S.False(), "hasTies starts false")
+		b.Eq("B-"+which+" rank-pass", name+"/hasTies-step", b.pos(fn), hn, env, "ite(iO+1<iI, true, hasTies)")
+	})
 	if which == "C01" {
 		const rB = "B-C01 formula"
-		b.guard("B-C01 rank-pass", name+"/hasTies", func() {
-			hi, hn := fc0.Recurrence(hasTies)
-			b.EqRF("B-C01 rank-pass", name+"/hasTies-init", b.pos(fn), hi, S.False(), "hasTies starts false")
-			b.Eq("B-C01 rank-pass", name+"/hasTies-step", b.pos(fn), hn, env, "ite(iO+1<iI, true, hasTies)")
-		})
 		b.guard("B-C01 rank-pass", name+"/tie-loop-condition", func() {
 			ph := X.phiOf[vars["iI"].SingleAtom().ID]
 			// inner loop: continues while i < len(merged) && merged[i] == v1 (v1 = merged[iO])
